@@ -99,7 +99,19 @@ class Mtimes:
                 neg_home = ms < 0
             else:
                 o = code_ms(old)
-                k = r.below(10)
+                k = r.below(11)
+                if k == 10:
+                    # exact shifts of the whole time stamp (sub-millisecond part kept): k * 999 ms (seconds up, sub-second part
+                    # down: collides when units are mixed up), whole seconds / minutes, 2^32 ms (a stamp truncated to 32 bits)
+                    m = 1 + r.below(3)
+                    d, nm = r.choice([(999_000_000 * m, "k999ms"), (1_000_000_000 * m, "ks"), (60_000_000_000, "60s"),
+                                      ((1 << 32) * 1_000_000, "2^32ms")])
+                    ns = old + d * (1 if r.chance(3, 4) else -1)
+                    if ns == 0 or (ns < 0) != (old < 0) or code_ms(ns) in self.used:
+                        continue
+                    self.used.add(code_ms(ns))
+                    self.classes.append(("pre_epoch_" if ns < 0 else "") + "exact_shift_" + nm)
+                    return ns
                 if k <= 2:
                     sec = (abs(o) // 1000) * 1000
                     j = 0 if r.chance(1, 3) else r.below(1000)
@@ -415,8 +427,53 @@ class ApiGen:
         self.ops.append("C")
         self.feat.add("direct")
 
+    def generate_shifted(self):
+        """run; same-size rewrite whose new mtime is the old one shifted by an EXACT amount (k * 999 ms, whole seconds, a minute,
+        2^32 ms — sub-millisecond part unchanged); same run again.  The millisecond stamps differ, so the second run must re-hash."""
+        r = self.r
+        for _ in range(2 + r.below(2)):
+            free = [n for n in range(1, 5) if n not in self.files]
+            p = r.choice(free)
+            d, mt = self.content() or self.word(3), self.mt._ns(self.mt.base + r.below(400_000) + 5000, exact=False)
+            self.mt.used.add(code_ms(mt))
+            self.ops.append("c:%d:%s:%d" % (p, dots(d), mt))
+            self.files[p] = {"data": d, "mt": mt, "hist": [mt]}
+        a, tr = r.choice(self.algos), r.choice(self.trs)
+        names = sorted(self.files)
+        calls = []
+        for nm in names:
+            ln = len(self.files[nm]["data"])
+            calls += ["H:%d:0:%d" % (nm, ln), "H:%d:0:2" % nm] if tr == "-" else ["X:%d:0:%d" % (nm, ln)]
+        session = ["HO:%d:%s" % (a, tr)] + calls + ["HC"]
+        self.ops += session
+        for nm in names:
+            f = self.files[nm]
+            m = 1 + r.below(3)
+            dlt, cls = r.choice([(999_000_000 * m, "k999ms"), (999_000_000 * m, "k999ms"), (1_000_000_000 * m, "ks"),
+                                 (60_000_000_000, "60s"), ((1 << 32) * 1_000_000, "2^32ms")])
+            mt = f["mt"] + dlt
+            if code_ms(mt) in self.mt.used:
+                continue
+            self.mt.used.add(code_ms(mt))
+            self.mt.classes.append("exact_shift_" + cls)
+            d = list(f["data"])
+            d[r.below(len(d))] = 97 + r.below(26)
+            self.ops.append("w:%d:%s:%d" % (nm, dots(d), mt))
+            f["data"], f["mt"] = d, mt
+            f["hist"].append(mt)
+        self.feat.add("exact_shift_rewrite")
+        self.ops += session
+        for _ in range(r.below(3)):
+            self.edit()
+            if r.chance(1, 2):
+                self.hasher_session()
+        return self.ops
+
     def generate(self):
         r = self.r
+        if self.profile == "shifted":
+            self.dir = False
+            return self.generate_shifted()
         if self.profile == "returning" and r.chance(3, 4):
             self.dir = False
             ops = self.generate_returning()
@@ -563,7 +620,7 @@ def api_level(ctx, model):
     seqs, profs = [], {}
     for i in range(n):
         k = rng.below(100)
-        prof = ("clean" if k < 50 else "same_ms" if k < 60 else "preepoch" if k < 70 else "flags" if k < 80
+        prof = ("clean" if k < 46 else "shifted" if k < 50 else "same_ms" if k < 60 else "preepoch" if k < 70 else "flags" if k < 80
                 else "returning" if k < 90 else "samename" if k < 95 else "alias" if k < 98 else "none")
         g = ApiGen(rng.fork(), prof)
         ops = g.generate()
